@@ -218,6 +218,7 @@ pub fn c16(a: &Args) -> Report {
     let small: BTreeSet<usize> = sized.iter().take(20).map(|x| x.1).collect();
     let srcs: Vec<String> = corpus.iter().enumerate().map(|(i, (_, s))| if i >= n_spec { raw[i - n_spec].1.clone() } else { s.render("T", "") }).collect();
     // run 0 (twice) per (definition, generator)
+    let thread_history: std::sync::Mutex<Vec<(usize, bool)>> = std::sync::Mutex::new(vec![]);
     let bases: Vec<(GenRun, bool)> = (0..corpus.len() * 2)
         .into_par_iter()
         .map(|i| {
@@ -226,10 +227,25 @@ pub fn c16(a: &Args) -> Report {
             let src0 = srcs[d].clone();
             let b = std::thread::spawn(move || gen_with(&src0, sm, vec![])).join().unwrap();
             let b2 = gen_with(&srcs[d], sm, vec![]);
-            let same = b.tokens == b2.tokens && b.graph == b2.graph && b.log == b2.log;
+            let mut same = b.tokens == b2.tokens && b.graph == b2.graph && b.log == b2.log;
+            if !same {
+                // a second fresh thread: if fresh threads agree with each other, the odd one out is the
+                // pool thread, which has expanded other definitions before (state left on the thread)
+                let src3 = srcs[d].clone();
+                let b3 = std::thread::spawn(move || gen_with(&src3, sm, vec![])).join().unwrap();
+                if b3.tokens == b.tokens && b3.graph == b.graph && b3.log == b.log {
+                    same = true;
+                    thread_history.lock().unwrap().push((d, sm));
+                }
+            }
             (b, same)
         })
         .collect();
+    for (d, sm) in thread_history.into_inner().unwrap() {
+        if rep.violations.len() < 40 {
+            rep.violations.push(viol("HISTORY-DEPENDENT", "c16", format!("{} sm={sm} (worker thread)", corpus[d].0), "two fresh threads give the same output, a worker thread that expanded other definitions before gives another one (state left behind on the thread)".into(), json!({"spec": corpus[d].1, "src": srcs[d], "sm": sm, "script": [], "history": true})));
+        }
+    }
     let mut jobs: Vec<C16Job> = vec![];
     let mut sites = BTreeSet::new();
     for (i, (base, same)) in bases.iter().enumerate() {
